@@ -198,6 +198,15 @@ const MIPS_REGISTERS: &[MipsRegister] = &[
     },
 ];
 
+/// Verification hook: the (name, bits) of every entry of `MIPS_REGISTERS`.
+#[cfg(falconre_falcon_verif)]
+pub fn verif_registers() -> Vec<(String, usize)> {
+    MIPS_REGISTERS
+        .iter()
+        .map(|register| (register.name.to_string(), register.bits))
+        .collect()
+}
+
 /// Takes a capstone register enum and returns a `MipsRegister`
 pub fn get_register(capstone_id: mips_reg) -> Result<&'static MipsRegister, Error> {
     for register in MIPS_REGISTERS.iter() {
